@@ -15,6 +15,7 @@ from ..engine.srcmodel import AnalysisError, ClassInfo, FuncInfo, Model, dotted,
     walk_local
 from ..engine.cfg import CFG, Node, calls_may_raise, node_writes
 from ..engine.taint import Taint, State
+from ..engine.dataflow import branch_facts, feasible_edges
 from ..engine.callgraph import CallGraph
 from ..engine.report import RuleResult
 from .common import finding
@@ -105,16 +106,22 @@ def r05_1(ctx, counts, only: Optional[set[str]] = None, rule: str = 'R05.1') -> 
         nfun += 1
         fresh = fresh_names(f, model)
         child_vars: set[str] = set()
+        def children_expr(e: ast.AST) -> bool:
+            """e denotes the token's own operands: self, self[a:b], self._items, or a
+            zip/filter/enumerate/reversed over those."""
+            t = stmt_text(e)
+            if t in (me, f'{me}._items'):
+                return True
+            if isinstance(e, ast.Subscript) and stmt_text(e.value) in (me, f'{me}._items') \
+                    and isinstance(e.slice, ast.Slice):
+                return True
+            if isinstance(e, ast.Call) and dotted(e.func) in ('zip', 'filter', 'enumerate',
+                                                              'reversed', 'iter'):
+                return any(children_expr(a) for a in e.args)
+            return False
         for n in walk_local(f.node):
             if isinstance(n, (ast.For, ast.comprehension)):
-                it = n.iter
-                txt = stmt_text(it)
-                if txt == me or txt.startswith(f'{me}[') or txt.startswith(f'{me}._items') \
-                        or (isinstance(it, ast.Call) and dotted(it.func) in ('zip', 'filter',
-                                                                             'enumerate',
-                                                                             'reversed')
-                            and any(stmt_text(a) == me or stmt_text(a).startswith(f'{me}[')
-                                    or stmt_text(a).startswith(f'{me}._items') for a in it.args)):
+                if children_expr(n.iter):
                     for x in ast.walk(n.target):
                         if isinstance(x, ast.Name):
                             child_vars.add(x.id)
@@ -260,6 +267,7 @@ def r05_2(ctx, counts) -> RuleResult:
                 res.ok()
             continue
         cfg = CFG(f.node, calls_may_raise)
+        facts = branch_facts(cfg)
         for w, name in writes:
             n += 1
             holder = [c for c in cfg.nodes if any(y is w for y in c.walk()) or c.ast is w]
@@ -275,7 +283,8 @@ def r05_2(ctx, counts) -> RuleResult:
                             return True
                 return False
             own = name == 'self' and f.cls is not None and f.cls.is_subclass_of(xc)
-            ok = cfg.dominated_by(holder[0], is_copy)
+            ok = cfg.dominated_by(holder[0], is_copy,
+                                  edge_ok=feasible_edges(cfg, holder[0], facts))
             res.instances.append(f'{f.key}: write to {name}.variables at L{w.lineno} '
                                  f'copy-dominated={ok}')
             if ok:
